@@ -464,8 +464,9 @@ def rule_fail_all(ctx):
     if ok:
         en = exc_defs[0].ast.id
         ctx.ob(R, ff, fa[0], unparse(arg_of(fa[0].ast, 0)) == en and unparse(arg_of(fe[0].ast, 0)) == en, "the task's exception is not what is propagated", text="exc-flow")
-        tt = [t for t in cf.nodes if t.kind == "test" and is_none_test(t.ast, negate=True) is not None and unparse(is_none_test(t.ast, negate=True)) == en]
-        ctx.ob(R, ff, fa[0], any(cf.dominated_by_branch(t, "T", fa[0]) for t in tt) and
+        from ..rulekit import none_tests
+        tt = none_tests(cf, en)
+        ctx.ob(R, ff, fa[0], any(cf.dominated_by_branch(t, lnn, fa[0]) for t, _ln, lnn in tt) and
                not any(isinstance(a, ast.If) and "transactional" in unparse(a.test) for a, r in fa[0].within), "fail_all not called for every sender failure", text="fail-all-guard")
         ctx.ob(R, ff, fa[0], unparse(fa[0].ast.func.value) == "self._message_accumulator", "fail_all on wrong object", text="fail-all-recv")
     fx = ctx.fn(f"{ACC}.fail_all")
